@@ -56,3 +56,10 @@ Definition run_rt (f p w : N) (rows : list (list N)) : list N :=
       concat (map (fun y => concat (map (fun x => obs4 (lget wd q x y)) (seq 0 wd))) (seq 0 (length (lines q))))
     end
   end.
+
+(* digests: printing thousands of numbers dominates the cost of a case, so stage C compares
+   [first element; length; polynomial hash] and re-evaluates the full observation only for a disagreement *)
+Definition hash_list (l : list N) : N := fold_left (fun h x => (h * 1000003 + x + 1) mod 2147483647) l 7.
+Definition digest (l : list N) : list N := [hd 0 l; N.of_nat (length l); hash_list l].
+Definition run_wr_h (f p w : N) (rows : list (list N)) : list N := digest (run_wr f p w rows).
+Definition run_ld_h (f : N) (data : list N) : list N := digest (run_ld f data).
